@@ -189,8 +189,20 @@ pub fn snapshot(db: &Database) -> Snap {
     Snap { tables, indexes }
 }
 
+/// Exact identity of a value: type tag + bit pattern, except that every NaN of a type is the
+/// same value (NaN equals NaN; payload and sign of a NaN are not demanded), -0.0 differs from 0.0.
+pub fn vkey(v: &SqlValue) -> String {
+    match v {
+        SqlValue::Double(f) if f.is_nan() => "D:NaN".into(),
+        SqlValue::Numeric(f) if f.is_nan() => "N:NaN".into(),
+        SqlValue::Float(f) if f.is_nan() => "F:NaN".into(),
+        SqlValue::Real(f) if f.is_nan() => "R:NaN".into(),
+        other => engine::val_text(other),
+    }
+}
+
 pub fn row_key(r: &[SqlValue]) -> String {
-    r.iter().map(engine::val_text).collect::<Vec<_>>().join("|")
+    r.iter().map(vkey).collect::<Vec<_>>().join("|")
 }
 
 #[derive(Clone, Debug)]
@@ -358,7 +370,7 @@ pub fn attribute(orig: &Database, rt: &dyn Fn(&Database) -> Result<Database, Str
                     continue;
                 }
                 let c = &t.schema.columns[j];
-                if seen.iter().any(|(sc, sv)| sc.data_type == c.data_type && engine::val_text(sv) == engine::val_text(v)) {
+                if seen.iter().any(|(sc, sv)| sc.data_type == c.data_type && vkey(sv) == vkey(v)) {
                     continue;
                 }
                 seen.push((c.clone(), v.clone()));
@@ -376,6 +388,9 @@ pub fn attribute(orig: &Database, rt: &dyn Fn(&Database) -> Result<Database, Str
                 if let Some(d) = diff_tables(&snapshot(&db), &snapshot(&l)) {
                     let after = l.get_table("X").and_then(|t| t.scan().first().map(|r| r.values.clone())).unwrap_or_default();
                     let effect = if d.kind == "rows.count" { "row_count" } else { value_effect(v, after.first()) };
+                    // a finite float that comes back a few ulps off: the trigger is "a finite
+                    // float outside the reader's exact range", whatever else the value is
+                    let feat = if effect == "off_by_ulps" { "finite" } else { feat };
                     return Some(Culprit { sig: format!("value.{}.{}.{}", cls, feat, effect), detail: format!("a one-row table holding {}: {}", shown, d.detail) });
                 }
             }
@@ -502,7 +517,7 @@ pub fn probes(db: &Database) -> Vec<Probe> {
             let Some(j) = t.schema.columns.iter().position(|c| c.name.eq_ignore_ascii_case(&ic.column_name)) else { continue };
             let mut vals: Vec<SqlValue> = t.scan().iter().map(|r| r.values[j].clone()).filter(|v| probe_lit(v).is_some()).collect();
             vals.sort();
-            vals.dedup_by(|a, b| engine::val_text(a) == engine::val_text(b));
+            vals.dedup_by(|a, b| vkey(a) == vkey(b));
             let tn = &m.table_name;
             let cn = &ic.column_name;
             if !vals.is_empty() {
